@@ -84,12 +84,16 @@ W3    == [T |-> w.T, in |-> w.in, out |-> w.out]
 FinishedVisible == Backend \in {"slurm", "lsf", "local"}
 AfterOK         == Backend \in {"slurm", "slurm_noacct", "lsf", "local"}   \* SGE hold_jid: any end releases
 Finished(j)     == jobs[j].st \in {"OK", "FAIL", "CA"}
-LiveJob(j)      == jobs[j].st \in {"PD", "R"}
+LiveJob(j)      == jobs[j].st \in {"PD", "R", "E"}
+(* "E": the job is alive in the queue but shown with a code gwf cannot classify (SGE Eqw, LSF    *)
+(* UNKWN, a Slurm code outside its table): gwf then knows nothing about it (view "U").  The job  *)
+(* can still be cancelled, and comes back as pending when the operator clears the condition.    *)
 JobIds          == DOMAIN jobs
 
 View(job) == IF job.gone THEN "U" ELSE
             CASE job.st = "PD"   -> "S"
               [] job.st = "R"    -> "R"
+              [] job.st = "E"    -> "U"
               [] job.st = "OK"   -> IF FinishedVisible THEN "C" ELSE "U"
               [] job.st = "FAIL" -> IF FinishedVisible THEN "X" ELSE "U"
               [] job.st = "CA"   -> IF ~FinishedVisible THEN "U" ELSE IF Backend = "lsf" THEN "X" ELSE "K"
@@ -323,6 +327,20 @@ Purge(j) ==
   /\ UNCHANGED <<w, specv, fs, clock, trk, hsh, useHash, gp, conv>>
   /\ Log("Purge", [t |-> jobs[j].tgt, j |-> j])
 
+JobStick(j) ==
+  /\ SchedOK /\ Backend \in {"sge", "lsf", "slurm_noacct"} /\ jobs[j].st = "PD" /\ ~jobs[j].gone /\ cnt.env < MaxEnv
+  /\ jobs' = [jobs EXCEPT ![j].st = "E"]
+  /\ Disturb /\ Bump("env")
+  /\ UNCHANGED <<w, specv, fs, clock, trk, hsh, useHash, gp>>
+  /\ Log("JobStick", [t |-> jobs[j].tgt, j |-> j])
+
+JobUnstick(j) ==
+  /\ SchedOK /\ jobs[j].st = "E"
+  /\ jobs' = [jobs EXCEPT ![j].st = "PD"]
+  /\ Disturb
+  /\ UNCHANGED <<w, specv, fs, clock, trk, hsh, useHash, gp, cnt>>
+  /\ Log("JobUnstick", [t |-> jobs[j].tgt, j |-> j])
+
 (* The local worker pool differs from the cluster schedulers in two ways.  A held task whose *)
 (* prerequisites have all ended, one of them not successfully, ends at once with that          *)
 (* prerequisite's state without ever running (a cluster job would stay pending for ever).      *)
@@ -388,7 +406,7 @@ EnvNext ==
 SchedNext ==
   \E j \in JobIds : JobStart(j) \/ (On("Purge") /\ Purge(j)) \/ JobEnd(j, TRUE, FALSE)
                      \/ (On("Ties") /\ JobEnd(j, TRUE, TRUE)) \/ (On("JobFail") /\ JobEnd(j, FALSE, FALSE))
-                     \/ JobInherit(j)
+                     \/ JobInherit(j) \/ (On("Stick") /\ (JobStick(j) \/ JobUnstick(j)))
 
 (* padding for the generator: once the command budget is used up a behaviour may idle *)
 Halt == /\ Idle /\ cnt.cmds >= MaxCmds /\ UNCHANGED core /\ Log("Halt", << >>)
